@@ -695,7 +695,7 @@ def support(ctx, broken):
     items = _items(ctx)
     pq_root = tempfile.mkdtemp(prefix="dxverif-c15-")
     try:
-        n_sessions = 1 if ctx.quick else 10
+        n_sessions = 1 if ctx.quick else 6
         n_steps = 80 if ctx.quick else 260
         seen_sigs = set()
         for si in range(n_sessions):
